@@ -35,12 +35,18 @@ LEVEL_TEXT = ("Proved for all inputs of the models: SGR codes of every style are
               "and by differential runs against the real classes.")
 LEVEL_NOTE = ("Trusted: Lean kernel + propext/Quot.sound/Classical.choice; tools/genparts/c11.py; this harness; "
               "that the hand-written models follow the code is sampled (exhaustively for the style table), not "
-              "proved. pastel's inline-style parser is a parameter (resolver) filled by pastel itself.")
+              "proved. pastel's inline-style parser is a parameter (resolver) filled by pastel itself. The hypotheses "
+              "of the message theorems (no ESC, no backslash, balanced pieces under the resolver pastel supplied) are "
+              "decided by the model on every generated message (answer field wf, theorems message_ok_decides / "
+              "balanced_decides) and compared with true; the specification of the SGR codes (expectedCodes, hypothesis "
+              "of sgr_exact) is answered by the model for every style of the table (field spec, theorem "
+              "spec_codes_decides) and compared with the oracle's own code table.")
 LEAN_MODULES = ["Clikit.Props.C11"]
 REQUIRED_THEOREMS = ["Clikit.Props.C11." + n for n in (
     "sgr_exact", "strip_eq_plain", "balanced_text", "plain_no_escape", "line_methods_newline",
     "indent_lines", "indent_lines_rendered", "scope_restores", "message_strip_eq_plain", "message_balanced",
-    "io_delegates")]
+    "io_delegates", "balanced_decides", "message_ok_decides", "balanced_text_decided", "message_balanced_decided",
+    "indent_lines_rendered_decided", "spec_codes_decides", "sgr_exact_decided")]
 RULE = ("msg: random ASTs (depth <= 4) over named styles of the default style set (any case), inline "
         "fg/bg/options specs, unknown tags, text over ASCII, '<' '>' '/', newline, non-ASCII incl. the four "
         "non-ASCII letters Python's case-insensitive [a-z] admits; non-trivial = at least one style node, distinct "
@@ -64,7 +70,11 @@ TRUSTED_BASE = [
 ]
 ASSUMPTIONS = [
     "messages contain no backslash and no ESC (backslash-escaped tags are outside the property's quantifier; "
-    "the model covers them but they are not generated)",
+    "the model covers them but they are not generated): decided by the model on every generated message "
+    "(wf.clean = cleanB, compared with true)",
+    "'balanced style tags' is the inductive predicate Balanced over the pieces pastel cuts the message into, relative to "
+    "what pastel makes of each tag: decided by the model on every generated message of the msg and write families "
+    "(wf.balanced = balancedB, proved equivalent to Balanced, compared with true)",
     "section outputs: a single section per stream (stacked sections are C15's subject); histories of writes, "
     "overwrites and clears on it only without decoration, where every call must append what it writes on a "
     "fresh section (the model answers call by call)",
@@ -697,7 +707,8 @@ def model_requests(case):
         tab = _table(raw)
         base = {"m": "c11.render", "msg": raw, "table": tab, "stack": case["pre"]}
         style = _style_json(case["style"]) if case["style"] is not None else None
-        return [dict(base, mode="ansi", style=style), dict(base, mode="plain", style=None)]
+        # "wf": the hypotheses of the message theorems (clean, balanced), decided by the model on this message
+        return [dict(base, mode="ansi", style=style), dict(base, mode="plain", style=None, wf=True)]
     if k == "bad":
         base = {"m": "c11.render", "msg": case["msg"], "table": _table(case["msg"]), "stack": [], "style": None}
         return [dict(base, mode="ansi"), dict(base, mode="plain")]
@@ -710,7 +721,7 @@ def model_requests(case):
         obj = "output" if case["obj"] == "error_output" else case["obj"]
         return [{"m": "c11.write", "kind": obj, "method": case["method"], "fmt": case["fmt"], "stream_ansi": False,
                  "indent": case["indent"], "quiet": case["quiet"], "verbosity": case["verbosity"],
-                 "flags": case["flags"], "text": raw, "table": _table(raw)}]
+                 "flags": case["flags"], "text": raw, "table": _table(raw), "wf": True}]
     if k == "secseq":
         # without decoration a section is a plain output: every call appends what the same call writes on a
         # fresh section, clear() writes nothing
@@ -718,6 +729,17 @@ def model_requests(case):
                  "indent": case["indent"], "quiet": False, "verbosity": 0, "flags": None, "text": raw_of(arg),
                  "table": _table(raw_of(arg))} for op, arg in case["ops"] if op != "clear"]
     return [{"m": "c11.scopes", "prog": case["prog"], "out": case["out"], "err": case["err"]}]
+
+
+WF_TRUE = {"clean": True, "balanced": True}
+
+
+def _wf(case, answer):
+    """the model's verdict on the hypotheses of the message theorems; a text that is not a generated one
+    (the generator invariant fails: only reachable by hand-made cases) is outside the claim"""
+    if not well_formed_text(case["ast"]):
+        return WF_TRUE
+    return answer.get("wf")
 
 
 def _ans(a):
@@ -729,19 +751,21 @@ def _ans(a):
 def model_obs(case, answers):
     k = case["k"]
     if k == "msg":
-        return {"ansi": _ans(answers[0]), "plain": _ans(answers[1]), "removed": _ans(answers[1])}
+        return {"ansi": _ans(answers[0]), "plain": _ans(answers[1]), "removed": _ans(answers[1]),
+                "wf": _wf(case, answers[1])}
     if k == "bad":
         return {"ansi": _ans(answers[0]), "plain": _ans(answers[1])}
     if k == "sgr":
         a = _ans(answers[0])
-        return {"ansi": {"out": a["out"]} if "out" in a else a}
+        return {"ansi": {"out": a["out"]} if "out" in a else a, "spec": answers[0].get("spec")}
     if k == "write":
         a = _ans(answers[0])
+        wf = _wf(case, answers[0])
         if "err" in a and "out" not in a:
-            return a
+            return dict(a, wf=wf)
         if case["obj"] == "error_output":
-            return {"out": "", "err": a["out"]}
-        return {"out": a["out"], "err": a["err"]}
+            return {"out": "", "err": a["out"], "wf": wf}
+        return {"out": a["out"], "err": a["err"], "wf": wf}
     if k == "secseq":
         out = []
         for x in answers:
@@ -756,7 +780,12 @@ def model_obs(case, answers):
 
 def impl_view(case, obs):
     if case["k"] == "sgr":
-        return {"ansi": obs["ansi"]}
+        # "spec": the codes the Lean specification (hypothesis of sgr_exact) demands = the oracle's own table
+        attrs = sorted(case["attrs"], key=ATTRS.index)
+        return {"ansi": obs["ansi"], "spec": spec_codes(case["fg"], case["bg"], attrs)}
+    if case["k"] in ("msg", "write"):
+        # every generated message is clean (no ESC, no backslash) and balanced: the model must decide so
+        return dict(obs, wf=WF_TRUE)
     return obs
 
 
